@@ -146,6 +146,26 @@ def programs():
                    'on-complete': ['b']}),
          'b': T()}, subs={'sub': leaf}),
         {'meta': {'undeclared': ['sub', 'extra', 7]}})
+    # how the task input splits into the child's input and its params, for
+    # every way the child declares input (not at all / with a default) x
+    # what the parent passes (nothing / declared / undeclared / both)
+    for dname, dinput in (('noinput', None), ('default', {'k': 0})):
+        child = direct({'s1': T(key='s1')}, input=dinput,
+                       output=({'k': ['var', 'k']} if dinput else None))
+        for pname, passed in (('nothing', None), ('declared', {'k': 1}),
+                              ('undeclared', {'extra': 7}),
+                              ('both', {'k': 1, 'extra': 7})):
+            kw = {'on-complete': ['b']}
+            if passed is not None:
+                kw['wf-input'] = {k: ['lit', x] for k, x in passed.items()}
+            meta = {}
+            und = [k for k in (passed or {}) if k not in (dinput or {})]
+            if und:
+                meta = {'meta': {'undeclared': ['sub', sorted(und)[0],
+                                                passed[sorted(und)[0]]]}}
+            P['split_%s_%s' % (dname, pname)] = (direct(
+                {'a': T(workflow='sub', publish={'r': ['result']}, **kw),
+                 'b': T()}, subs={'sub': child}), meta)
     mid = direct({'m1': T(workflow='sub', publish={'mr': ['result']},
                           **{'wf-input': {'k': ['lit', 2]}})},
                  output={'mr': ['var', 'mr']})
